@@ -82,6 +82,9 @@ Expect(c) ==
     \* numeric strings in float notation beyond the 32-bit ranges ("3e9", "2147483648.0", "-2147483649.0", "1e30", "Inf", "NaN"): a parser may
     \* reject them or convert them correctly, but (Judge) never hands back a different number with a nil error
     [] c.kind = "strfloatbig" -> "either"
+    \* decimal integers written with leading zeros or an explicit sign ("010", "-0755", "000123", "+7", "007", "0000", "-00", "08"): the number is the
+    \* DECIMAL one (a parser that guesses the base from the prefix reads "010" as 8); a parser may also refuse such text
+    [] c.kind = "strlead0"    -> "either"
     [] c.kind = "negzero"     -> "ok"
     [] c.kind \in {"huge", "nhuge"} -> IF c.tgt \in {"float64", "bool"} THEN "ok" ELSE "fail"   \* outside float32 and every integer type
     [] c.kind = "strint" /\ c.tgt = "bool" -> "either"                                 \* "255" is not a boolean literal: an error is fine
